@@ -37,7 +37,8 @@ RULE = ('Operation sequences over the whole real server: blocks (confirming gene
         'mempool part in some order; the last header held is the tip; every written message that '
         'carries a height h finds db height >= h and that header on disk. Failure to quiesce within '
         '400 virtual s is a convergence violation. Non-trivial = between two quiesces the true '
-        'status of a subscribed script hash changed and both a block and a mempool change occurred.')
+        'status of a subscribed script hash changed and both a block and a mempool change occurred.' 
+        'late_client operation: a new client connects and subscribes (headers, one script) at the moment the session manager is told about a new block, with the tip-header read of that notification delivered 0/0.5/3 s late; judged like every other client. Meta-file stratum as in C01.')
 ASSUMPTIONS = ['FakeDaemon models bitcoind (answers computed at response time; reorged-out '
                'transactions return to the mempool when still valid)',
                'subscriptions are drawn from spendable scripts only (the status of an OP_RETURN '
